@@ -51,8 +51,17 @@ F = {
 }
 jobs = json.load(sys.stdin)
 out = []
+BUFS = {}
 for fn, mhex in jobs:
     try:
+        # one long-lived buffer per function, refilled in place: asked first and last of every job, so that two
+        # consecutive calls see the SAME object with DIFFERENT contents
+        buf = BUFS.setdefault(fn, bytearray())
+        buf[:] = bytes.fromhex(mhex)
+        try:
+            r3 = F[fn](buf)
+        except Exception as e3:
+            r3 = "given in a refilled bytearray: " + type(e3).__name__
         r = F[fn](bytes.fromhex(mhex))
         if not isinstance(r, bytes):
             out.append({"exc": "result is %s, not bytes" % type(r).__name__})
@@ -62,8 +71,18 @@ for fn, mhex in jobs:
                 r2 = F[fn](bytearray.fromhex(mhex))
             except Exception as e2:
                 r2 = "given as bytearray: " + type(e2).__name__
+            # ... and in ONE long-lived buffer per function that the caller refills in place between calls
+            # (a digest is a function of the bytes at the time of the call, not of the object that holds them)
+            try:
+                r4 = F[fn](buf)
+            except Exception as e4:
+                r4 = "given in a refilled bytearray: " + type(e4).__name__
+            if r3 == r:
+                r3 = r4
             if r2 != r:
                 out.append({"exc": r2 if isinstance(r2, str) else "given as bytearray: another digest"})
+            elif r3 != r:
+                out.append({"exc": r3 if isinstance(r3, str) else "given in a refilled bytearray: digest of other contents"})
             else:
                 out.append({"d": bytes(r).hex()})
     except Exception as e:
